@@ -8,7 +8,7 @@ git -C /repo worktree add -q --detach "$wt" HEAD || exit 2
 cmake -S "$wt" -B "$wt/_build" -G Ninja -DCMAKE_BUILD_TYPE=Release >/dev/null 2>&1 || cmake -S "$wt" -B "$wt/_build" >/dev/null 2>&1
 cmake --build "$wt/_build" -j16 >/dev/null 2>&1 || { echo "BUILD-FAILS"; git -C /repo worktree remove --force "$wt"; exit 4; }
 ctest --test-dir "$wt/_build" -j8 2>&1 | grep "tests passed\|tests failed"
-sh "$d/demo.sh" "$wt/_build" > "$wt/demo.out" 2>&1; rc=$?
+demo="$d/demonstration.sh"; [ -f "$demo" ] || demo="$d/demo.sh"; sh "$demo" "$wt/_build" > "$wt/demo.out" 2>&1; rc=$?
 tail -5 "$wt/demo.out"
 echo "DEMO-EXIT $rc"
 git -C /repo worktree remove --force "$wt"
